@@ -114,4 +114,134 @@ theorem expectedFor_sub_other {α} (evs1 evs2 : List (RegEv α)) (i j : Nat) (h 
     | unsub k => simp [expectedFor, ih]
     | emit x => cases on <;> simp [expectedFor, ih]
 
+/-! ## the keyed handler table (`KReg`) against the abstract registry (`Reg`) -/
+
+/-- the table that holds exactly the subscribers `l`, each under its own key -/
+def entries (key : Nat → Nat) (l : List Nat) : HTable := l.map (fun i => (key i, i))
+
+theorem set_present (key : Nat → Nat) (l : List Nat) (i : Nat) (hi : i ∈ l)
+    (hf : ∀ j ∈ l, j ≠ i → key j ≠ key i) :
+    (entries key l).set (key i) i = entries key l := by
+  have hany : (entries key l).any (·.1 == key i) = true := by
+    simp only [entries, List.any_map, List.any_eq_true]
+    exact ⟨i, hi, by simp⟩
+  unfold HTable.set
+  rw [if_pos hany]
+  simp only [entries, List.map_map]
+  apply List.map_congr_left
+  intro a ha
+  by_cases e : a = i
+  · subst e; simp
+  · have := hf a ha e
+    simp [this]
+
+theorem set_absent (key : Nat → Nat) (l : List Nat) (i : Nat) (hi : i ∉ l)
+    (hf : ∀ j ∈ l, j ≠ i → key j ≠ key i) :
+    (entries key l).set (key i) i = entries key (l ++ [i]) := by
+  have hany : (entries key l).any (·.1 == key i) = false := by
+    simp only [entries, List.any_map, List.any_eq_false]
+    intro a ha
+    have : a ≠ i := fun e => hi (e ▸ ha)
+    simpa using hf a ha this
+  unfold HTable.set
+  rw [hany]
+  simp [entries]
+
+theorem pop_entries (key : Nat → Nat) (l : List Nat) (i : Nat)
+    (hf : ∀ j ∈ l, j ≠ i → key j ≠ key i) :
+    (entries key l).pop (key i) = entries key (l.filter (· ≠ i)) := by
+  unfold HTable.pop entries
+  rw [List.filter_map]
+  congr 1
+  apply List.filter_congr
+  intro a ha
+  by_cases e : a = i
+  · subst e; simp
+  · simp [e, hf a ha e]
+
+theorem krun_cons {α} (key : Nat → Nat) (k : KReg α) (e : RegEv α) (evs : List (RegEv α)) :
+    k.run key (e :: evs) = (k.step key e).run key evs := rfl
+
+/-- keys are injective on the registered subscribers -/
+def KeyInjOn (key : Nat → Nat) (l : List Nat) : Prop :=
+  ∀ a ∈ l, ∀ b ∈ l, key a = key b → a = b
+
+theorem keys_nodup (key : Nat → Nat) (l : List Nat) (hl : l.Nodup) (hk : KeyInjOn key l) :
+    ((entries key l).map (·.1)).Nodup := by
+  induction l with
+  | nil => simp [entries]
+  | cons a l ih =>
+    have ha : a ∉ l := (List.nodup_cons.mp hl).1
+    have ih := ih (List.nodup_cons.mp hl).2 (fun x hx y hy => hk x (List.mem_cons_of_mem _ hx) y (List.mem_cons_of_mem _ hy))
+    simp only [entries, List.map_cons, List.map_map, List.nodup_cons] at ih ⊢
+    refine ⟨?_, ih⟩
+    simp only [List.mem_map, Function.comp]
+    rintro ⟨b, hb, e⟩
+    have := hk b (List.mem_cons_of_mem _ hb) a (List.mem_cons_self) e
+    exact ha (this ▸ hb)
+
+/-- the keyed handler table refines the abstract registry: same subscribers in
+the same order, same deliveries, and the keys in the table stay pairwise distinct -/
+theorem keyed_refines {α} (key : Nat → Nat) (evs : List (RegEv α)) (r : Reg α) (k : KReg α)
+    (ht : k.table = entries key r.subs) (hd : k.delivered = r.delivered)
+    (hn : r.subs.Nodup) (hi : KeyInjOn key r.subs) (hf : KeysFresh key r.subs evs) :
+    (k.run key evs).table = entries key (r.run evs).subs ∧
+    (k.run key evs).delivered = (r.run evs).delivered ∧
+    (r.run evs).subs.Nodup ∧ KeyInjOn key (r.run evs).subs := by
+  induction evs generalizing r k with
+  | nil => exact ⟨ht, hd, hn, hi⟩
+  | cons e evs ih =>
+    rw [krun_cons, run_cons]
+    cases e with
+    | sub j =>
+      obtain ⟨hfj, hf'⟩ := hf
+      by_cases hj : j ∈ r.subs
+      · have hs : r.step (.sub j) = r := by simp [Reg.step, hj]
+        rw [hs]
+        rw [if_pos hj] at hf'
+        exact ih r _ (by simp [KReg.step, ht, set_present key _ j hj hfj]) hd hn hi hf'
+      · have hs : r.step (.sub j) = { r with subs := r.subs ++ [j] } := by simp [Reg.step, hj]
+        rw [hs]
+        rw [if_neg hj] at hf'
+        refine ih _ _ (by simp [KReg.step, ht, set_absent key _ j hj hfj]) hd ?_ ?_ hf'
+        · simp only
+          rw [List.nodup_append]
+          refine ⟨hn, by simp, ?_⟩
+          intro a ha b hb
+          simp at hb; subst hb
+          intro e; subst e; exact hj ha
+        · intro a ha b hb e
+          simp only [List.mem_append, List.mem_singleton] at ha hb
+          rcases ha with ha | ha <;> rcases hb with hb | hb
+          · exact hi a ha b hb e
+          · subst hb
+            exact Decidable.byContradiction fun ne => hfj a ha ne e
+          · subst ha
+            exact Decidable.byContradiction fun ne => hfj b hb (fun h => ne h.symm) e.symm
+          · rw [ha, hb]
+    | unsub j =>
+      obtain ⟨hfj, hf'⟩ := hf
+      have hs : r.step (.unsub j) = { r with subs := r.subs.filter (· ≠ j) } := rfl
+      rw [hs]
+      refine ih _ _ (by simp [KReg.step, ht, pop_entries key _ j hfj]) hd
+        (hn.sublist List.filter_sublist) ?_ hf'
+      intro a ha b hb e
+      exact hi a (List.mem_filter.mp ha).1 b (List.mem_filter.mp hb).1 e
+    | emit x =>
+      have hs : r.step (.emit x) =
+          { r with delivered := r.delivered ++ r.subs.map (fun k => (k, x)) } := rfl
+      rw [hs]
+      refine ih _ _ (by simp [KReg.step, ht]) ?_ hn hi hf
+      simp [KReg.step, ht, hd, entries]
+
+theorem keysFresh_of_injective {α} (key : Nat → Nat) (hinj : ∀ i j, key i = key j → i = j)
+    (subs : List Nat) (evs : List (RegEv α)) : KeysFresh key subs evs := by
+  induction evs generalizing subs with
+  | nil => trivial
+  | cons e evs ih =>
+    cases e with
+    | sub i => exact ⟨fun j _ ne e => ne (hinj j i e), ih _⟩
+    | unsub i => exact ⟨fun j _ ne e => ne (hinj j i e), ih _⟩
+    | emit x => exact ih _
+
 end DaliVerif.Proofs.Registry
